@@ -367,35 +367,6 @@ def run(tier, seed):
     if missing:
         core.die("C43: %d texts without a record" % len(missing))
 
-    # anomalies are confirmed in isolation (a fresh compiler process per text): a leak of compiler state between
-    # two compilations of one process is not a verdict on the second text
-    def crashy(r):
-        if "died" in r:
-            return "limit" not in r["died"] and "timeout" not in r["died"]
-        if r["timeout"]:
-            return False
-        return bool(r["escaped"]) or any(e["cls"] != "CompileError" for e in r["errors"]) or \
-            bool(r["raised"] and r["raised"]["cls"] not in ("CompileError", "AbortError"))
-    sus = [c for c in cases if crashy(recs[c.id])]
-    iso = sus if len(sus) <= 400 else core.sample(sus, 400, rng)
-    if iso:
-        fresh = {}
-        with concurrent.futures.ThreadPoolExecutor(max_workers=jobs) as ex:
-            def one(c):
-                r = LP.compile_texts([{"id": c.id, "b64": LP.b64(c.data), "kind": "py"}], os.path.join(wd, "iso%d" % c.id), jobs=1,
-                                     per_text_timeout=limit, shard_timeout=1200)
-                return c.id, r.get(c.id)
-            for cid, r in ex.map(one, iso):
-                if r is not None:
-                    fresh[cid] = r
-        changed = 0
-        for cid, r in fresh.items():
-            if not crashy(r):
-                changed += 1
-            recs[cid] = r
-        cov["anomalies_rerun_in_isolation"] = len(fresh)
-        cov["anomalies_not_reproduced_in_isolation"] = changed
-
     # the C compiler's answer on a sample of the generated files (g++ on C++ output in the thorough tier)
     by_id = {c.id: c for c in cases}
     chosen = pick_cc(cases, recs, tier, rng)
@@ -478,6 +449,7 @@ def run(tier, seed):
     cov["transitions"] += tr.generated
     cov["tlc"].append(dict(tr.summary(), part="trace"))
 
+    dump = open(os.environ["C43_DUMP"], "w") if os.environ.get("C43_DUMP") else None   # development aid: all disagreements
     # every real compilation must fall into an outcome class of the model
     legal_out = set(cov["model_outcomes"])
     seen_out = {}
@@ -503,7 +475,9 @@ def run(tier, seed):
                 info["final"] = r["final"]
             if why == "c-compiler-rejects":
                 info["cc"] = cc[c.id][1]
-            rep.disagree(c.desc, obs, info)
+            res = rep.disagree(c.desc, obs, info)
+            if dump is not None:
+                dump.write(json.dumps({"desc": c.desc, "obs": obs, "res": res, "info": info}, default=str) + "\n")
             continue
         if "died" in r:
             continue
@@ -520,6 +494,8 @@ def run(tier, seed):
         seen_out[oc] = seen_out.get(oc, 0) + 1
         if oc not in legal_out:
             core.die("record accepted by Pipeline_Trace.tla but outside the outcome classes of Pipeline.tla: %s" % oc)
+    if dump is not None:
+        dump.close()
     cov["outcome_classes_seen"] = seen_out
     cov["families"] = fam_stats
     cov["traces_validated_against_impl"] = len(cases)
